@@ -19,6 +19,7 @@ import (
 	scalibr "github.com/google/osv-scalibr"
 	"github.com/google/osv-scalibr/extractor/filesystem"
 	scalibrfs "github.com/google/osv-scalibr/fs"
+	"github.com/google/osv-scalibr/inventory"
 	scalibrlog "github.com/google/osv-scalibr/log"
 	"github.com/google/osv-scalibr/plugin"
 )
@@ -354,7 +355,24 @@ var allocStop uint64
 // Containment scans.
 
 // scanSummary is what the containment oracle compares.
+// recExtractor delegates to a built-in extractor and counts the Extract calls that returned an
+// error inside the scan (extractors such as sbom/spdx on RDF input are not deterministic, so a
+// direct call cannot predict what the scan's own call returns).
+type recExtractor struct {
+	filesystem.Extractor
+	errs int
+}
+
+func (r *recExtractor) Extract(ctx context.Context, in *filesystem.ScanInput) (inventory.Inventory, error) {
+	inv, err := r.Extractor.Extract(ctx, in)
+	if err != nil {
+		r.errs++
+	}
+	return inv, err
+}
+
 type scanSummary struct {
+	ExtractErrs map[string]int // extractor -> Extract calls that returned an error during the scan
 	Status   plugin.ScanStatusEnum
 	Reason   string
 	Pkgs     map[string][]string // extractor -> sorted "name@version@locations"
@@ -378,9 +396,18 @@ func scanTree(root string, exts []*extInfo, caps *plugin.Capabilities) (s scanSu
 		}
 	}()
 	var list []filesystem.Extractor
+	var recs []*recExtractor
 	for _, e := range exts {
-		list = append(list, e.New())
+		r := &recExtractor{Extractor: e.New()}
+		recs = append(recs, r)
+		list = append(list, r)
 	}
+	defer func() {
+		s.ExtractErrs = map[string]int{}
+		for _, r := range recs {
+			s.ExtractErrs[r.Name()] = r.errs
+		}
+	}()
 	res := scalibr.New().Scan(context.Background(), &scalibr.ScanConfig{
 		FilesystemExtractors: list,
 		Capabilities:         caps,
